@@ -203,6 +203,16 @@ impl<const N: usize> UdpAssociateContext<N> {
         ensures r matches Ok(a) ==> a.sid() == client_session.client_session_id,
     { unimplemented!() }
 }
+/// server/shadowsocks.rs `impl From<&ServerContext<N>> for PayloadCodec<N>` (= PayloadCodec::new(context, Mode::Server, None)): assumed stub - a trait impl cannot
+/// state the precondition of PayloadCodec::new
+impl<const N: usize> vstd::std_specs::convert::FromSpecImpl<&ServerContext<N>> for sssrv__PayloadCodec<N> {
+    open spec fn obeys_from_spec() -> bool { false }
+    open spec fn from_spec(v: &ServerContext<N>) -> Self { arbitrary() }
+}
+impl<const N: usize> From<&ServerContext<N>> for sssrv__PayloadCodec<N> {
+    #[verifier::external_body]
+    fn from(value: &ServerContext<N>) -> Self { unimplemented!() }
+}
 /// server.rs startup_quic (accept loop): NOT verified
 #[verifier::external_body]
 fn srv__startup_quic<const N: usize, F: FnOnce(&ServerContext<N>) -> anyhow::Result<sssrv__PayloadCodec<N>>>(context: ServerContext<N>, config: &ServerConfig<SslConfig>, new_codec: F) -> (r: anyhow::Result<()>)
@@ -262,20 +272,6 @@ fn new_codec<'a, const N: usize>(config: &ServerConfig<SslConfig>, context: udp_
         Ok(udp__SessionCodec::<'a, N>::new(context, udp__AEADCipherCodec::new(config.cipher)))
     }
 
-
-//@@ octo-squirrel-server/src/server/shadowsocks.rs:396-400  mod tcp / impl From for PayloadCodec  sha=2594280010b53db2
-impl<const N: usize> From<&ServerContext<N>> for sssrv__PayloadCodec<N> {
-        fn from(value: &ServerContext<N>) -> Self {
-            Self::new(value.0.clone(), Mode::Server, None)
-        }
-    }
-
-
-/// (no specification is claimed for this conversion)
-impl<const N: usize> vstd::std_specs::convert::FromSpecImpl<&ServerContext<N>> for sssrv__PayloadCodec<N> {
-    open spec fn obeys_from_spec() -> bool { false }
-    open spec fn from_spec(v: &ServerContext<N>) -> Self { arbitrary() }
-}
 
 //@@ octo-squirrel-server/src/server/shadowsocks.rs:84-170  fn startup_udp  sha=eea43b948751bef5
 // termination is not claimed: the service runs until its channel closes
